@@ -97,6 +97,7 @@ def run(ctx):
     r = next(r for r in recs if r.ops and r.p["kind"] == "Variable")
     ctx.sample({"params": r.p, "chunk_sizes": [o["n"] for o in r.ops if o["op"] == "u"], "granted": [o["idx"] for o in r.ops if o["op"] == "u"]})
     biqf_chunking(ctx)
+    strategy_chunking(ctx)
     X.biqf_model_correspondence(ctx, "c10")
     X.strategy_purity(ctx, report_update=True, report_purity=False)
     ctx.extra["exhaustive"] = False
@@ -136,6 +137,87 @@ def biqf_chunking(ctx):
                               what="BalancedIncrementalQuantileFilter: decisions / state depend on the chunking")
                 break
         ctx.nontriv(("biqf", h))
+
+
+def strategy_chunking(ctx):
+    """Strategy level: the deterministic stream strategies (with deterministic managers) on the same stream under
+    several chunkings; a scripted classifier makes the utilities an exact function of the instance (no batch-size
+    dependent rounding), streams are built so that the budget is exhausted inside chunks."""
+    import inspect
+    import warnings
+    import skactiveml.stream as st
+    import skactiveml.stream.budgetmanager as bm
+    from skactiveml.base import SkactivemlClassifier
+
+    class Scripted(SkactivemlClassifier):
+        def __init__(self, classes=None, missing_label=np.nan, cost_matrix=None, random_state=None):
+            super().__init__(classes=classes, missing_label=missing_label, cost_matrix=cost_matrix, random_state=random_state)
+
+        def fit(self, X, y, sample_weight=None):
+            self.classes_ = np.array([0, 1])
+            return self
+
+        def predict_proba(self, X):
+            p = (np.floor(np.abs(np.asarray(X, dtype=float)[:, 0]) * 8) % 5) / 8.0 + 0.5      # 0.5 .. 1.0 in eighths
+            return np.column_stack([p, 1 - p])
+
+    def mgr(name, budget):
+        cls = getattr(bm, name)
+        kw = {"budget": budget}
+        if "classes" in inspect.signature(cls.__init__).parameters:
+            kw["classes"] = [0, 1]
+        return cls(**kw)
+
+    combos = [("FixedUncertainty", None), ("VariableUncertainty", None),
+              ("StreamDensityBasedAL", "FixedUncertaintyBudgetManager"), ("StreamDensityBasedAL", "VariableUncertaintyBudgetManager")]
+    clf = Scripted(classes=[0, 1]).fit(None, None)
+    for sname, mname in combos:
+        comp = sname + (f"[{mname}]" if mname else "")
+        for h in range(4 if ctx.is_quick else 40):
+            rng = ctx.rng("stratchunk", comp, h)
+            n = int(rng.integers(20, 60))
+            budget = float(rng.choice([0.1, 0.3, 0.6]))
+            style = str(rng.choice(["shrinking", "grid", "normal"]))
+            if style == "shrinking":       # every instance is a new nearest neighbour: the density test passes throughout
+                Sx = np.cumsum(np.abs(rng.normal(size=(n, 2))), axis=0)[::-1].copy()
+            elif style == "grid":
+                Sx = rng.integers(0, 4, size=(n, 2)).astype(float)
+            else:
+                Sx = rng.normal(size=(n, 2))
+            seed = int(rng.integers(0, 1000))
+            outs = []
+            for sizes in chunkings(rng, n):
+                cls = getattr(st, sname)
+                kw = {"budget": budget, "random_state": seed}
+                if "classes" in inspect.signature(cls.__init__).parameters:
+                    kw["classes"] = [0, 1]
+                if mname:
+                    kw["budget_manager"] = mgr(mname, budget)
+                qs = cls(**kw)
+                dec, pos = [], 0
+                try:
+                    with warnings.catch_warnings():
+                        warnings.simplefilter("ignore")
+                        for k in sizes:
+                            c = Sx[pos:pos + k]
+                            idx = qs.query(c, clf=clf)
+                            qs.update(c, idx)
+                            dec += [pos + int(i) for i in idx]
+                            pos += k
+                except Exception as e:
+                    ctx.violation(comp, "update_exception", repr(e)[:300], {"strategy": comp, "chunking": sizes, "seed": seed, "stream": Sx.tolist()},
+                                  what=f"{comp}: query/update raised {type(e).__name__}")
+                    break
+                outs.append((sizes, dec, S.snapshot(qs.budget_manager_)))
+                ctx.count("strategy_chunking:" + comp)
+            for sizes, dec, stt in outs[1:]:
+                if dec != outs[0][1] or stt != outs[0][2]:
+                    ctx.violation(comp, "chunking_dependent", f"chunking {sizes}: granted {dec}; one-by-one: granted {outs[0][1]}",
+                                  {"strategy": comp, "budget": budget, "seed": seed, "stream": Sx.tolist(), "chunking": sizes},
+                                  what=f"{comp}: labels granted / budget-manager state depend on how the stream is chunked")
+                    break
+            if outs and outs[0][1]:
+                ctx.nontriv(("stratchunk", comp, Sx.tobytes(), budget))
 
 
 def replay(ctx, path):
